@@ -89,6 +89,23 @@ def Diff.WF (d : Diff) : Prop :=
 
 instance (d) : Decidable (Diff.WF d) := by unfold Diff.WF; infer_instance
 
+/-- key uniqueness of a mapping tree at every level (`IndexMap`); implied by `WF` -/
+def KeysUnique (m : Mappings) : Prop :=
+  NoDup m.classes ∧ ∀ c ∈ m.classes, NoDup c.2.fields ∧ NoDup c.2.methods ∧ ∀ me ∈ c.2.methods, NoDup me.2.params
+
+instance (m) : Decidable (KeysUnique m) := by unfold KeysUnique; infer_instance
+
+/-! ## the domain of `diff`: every entry has a name in the second namespace -/
+
+def named (names : Names) : Bool := (nameAt names 1).isSome
+def namedParam (p : Param) : Bool := named p.names
+def namedField (f : Field) : Bool := named f.names
+def namedMethod (m : Method) : Bool := named m.names && m.params.all fun e => namedParam e.2
+def namedClass (c : Class) : Bool :=
+  named c.names && (c.fields.all fun e => namedField e.2) && c.methods.all fun e => namedMethod e.2
+/-- every class, field, method and parameter has a name in namespace 1 -/
+def allNamed (m : Mappings) : Bool := m.classes.all fun e => namedClass e.2
+
 /-! ## the proved domain of `diff_apply` -/
 
 def methodParams (m : Mappings) (c : JStr) (k : MemberKey) : AList Nat Param :=
@@ -152,13 +169,16 @@ def actionAll (p : JStr → Bool) : Action JStr → Bool
   | .remove a => p a
   | .edit a b => p a && p b
 
-/-- a cell that survives a line of text: no TAB, LF, CR -/
-def plainCell (s : JStr) : Bool := s.all fun c => !(c == 9 || c == 10 || c == 13)
+/-- a Unicode scalar value (the text travels as UTF-8 through a file; `BufRead::lines` rejects anything else) -/
+def scalar (c : Nat) : Bool := c < 55296 || (57343 < c && c < 1114112)
 
-/-- a comment that survives: not empty, no TAB / CR, no backslash directly followed by `n` -/
+/-- a cell that survives a line of text: no TAB, LF, CR; scalar values only -/
+def plainCell (s : JStr) : Bool := s.all fun c => !(c == 9 || c == 10 || c == 13) && scalar c
+
+/-- a comment that survives: not empty, no TAB / CR, no backslash directly followed by `n`; scalar values only -/
 def plainDoc : JStr → Bool
   | [] => false
-  | s => (s.all fun c => !(c == 9 || c == 13)) && noBsN s
+  | s => (s.all fun c => !(c == 9 || c == 13) && scalar c) && noBsN s
 where noBsN : List Nat → Bool
   | 92 :: 110 :: _ => false
   | _ :: rest => noBsN rest
@@ -179,10 +199,11 @@ def writableClass (e : JStr × CDiff) : Bool :=
     actionAll plainDoc e.2.doc && e.2.fields.all writableField && e.2.methods.all writableMethod
 
 /-- **Writable**: the diffs whose specification text the reader reads back (as `normDiff d`): unique keys, valid names
-without TAB/LF/CR, non-empty comments without TAB/CR and without the two-character sequence backslash-`n`, parameter
-indices below 2^64, no action on the namespace name or the top-level comment -/
+without TAB/LF/CR, non-empty comments without TAB/CR and without the two-character sequence backslash-`n`, no surrogate code points
+(the text is UTF-8), parameter indices below 2^64, no action on the namespace name, no change of the top-level comment (`None` or `Edit(a, a)`): the
+format has no syntax for either (`TinyDiff.read` always returns `info = doc = None`) -/
 def Writable (d : Diff) : Prop :=
-  d.info = .none ∧ d.doc = .none ∧ Diff.WF d ∧ d.classes.all writableClass = true
+  d.info = .none ∧ normAction d.doc = .none ∧ Diff.WF d ∧ d.classes.all writableClass = true
 
 instance (d) : Decidable (Writable d) := by unfold Writable; infer_instance
 
